@@ -12,26 +12,42 @@ use std::sync::Mutex;
 // are not counted, so that what is counted inside an operation window are *table* allocations.
 // ---------------------------------------------------------------------------------------------
 pub struct CountingAlloc;
+pub const TABLE_ALIGN: usize = if cfg!(miri) { 8 } else { 16 };
 pub static QUIET: AtomicUsize = AtomicUsize::new(1); // start quiet; windows open explicitly
 pub static ALLOCS: AtomicU64 = AtomicU64::new(0);
 pub static DEALLOCS: AtomicU64 = AtomicU64::new(0);
 pub static LIVE: AtomicI64 = AtomicI64::new(0);
+pub static LIVE_BASE: AtomicI64 = AtomicI64::new(0);
+/// live table allocations since the last `rebase_live()` (called when no slot is alive)
+pub fn live_tables() -> i64 {
+    LIVE.load(Relaxed) - LIVE_BASE.load(Relaxed)
+}
+pub fn rebase_live() {
+    LIVE_BASE.store(LIVE.load(Relaxed), Relaxed);
+}
 /// Largest counted allocation in the current window (bytes)
 pub static MAXALLOC: AtomicUsize = AtomicUsize::new(0);
 
 unsafe impl GlobalAlloc for CountingAlloc {
     unsafe fn alloc(&self, l: Layout) -> *mut u8 {
-        if QUIET.load(Relaxed) == 0 {
-            ALLOCS.fetch_add(1, Relaxed);
+        // hashbrown tables are allocated with Group::WIDTH (16) alignment; nothing else in an
+        // operation window is (panic payloads, formatting buffers have smaller alignment)
+        if l.align() >= TABLE_ALIGN {
+            // live table allocations are tracked everywhere (slots are also dropped outside windows)
             LIVE.fetch_add(1, Relaxed);
+        }
+        if QUIET.load(Relaxed) == 0 && l.align() >= TABLE_ALIGN {
+            ALLOCS.fetch_add(1, Relaxed);
             MAXALLOC.fetch_max(l.size(), Relaxed);
         }
         System.alloc(l)
     }
     unsafe fn dealloc(&self, p: *mut u8, l: Layout) {
-        if QUIET.load(Relaxed) == 0 {
-            DEALLOCS.fetch_add(1, Relaxed);
+        if l.align() >= TABLE_ALIGN {
             LIVE.fetch_sub(1, Relaxed);
+        }
+        if QUIET.load(Relaxed) == 0 && l.align() >= TABLE_ALIGN {
+            DEALLOCS.fetch_add(1, Relaxed);
         }
         System.dealloc(p, l)
     }
